@@ -75,7 +75,7 @@ CallsOf(fn) ==
       [] fn = "RenameFile"     -> {<<fn, h, "f0", 0, 0, <<"f1">>>> : h \in Handles}
       [] fn = "FlushArchive"   -> {<<fn, h, "", k, 0, <<>>>> : h \in Handles, k \in {0, 1}}
       [] fn = "VerifyArchive"  -> {<<fn, h, "", k, 0, <<>>>> : h \in Handles, k \in {0, 1}}
-      [] fn = "FindFirst"      -> {<<fn, h, "", 0, 0, <<>>>> : h \in Handles}
+      [] fn = "FindFirst"      -> {<<fn, h, m, 0, 0, <<>>>> : h \in Handles, m \in (IF Rich THEN {"", "m2", "m4", "m6"} ELSE {""})}
       [] fn = "FindNext"       -> {<<fn, h, "", 0, 0, <<>>>> : h \in Handles}
       [] fn = "FindClose"      -> {<<fn, h, "", 0, 0, <<>>>> : h \in Handles}
 
